@@ -274,6 +274,17 @@ def run_types(rep, tier, env):
             rep.count("L5.ty_roundtrip_impl")
         texts.append(round_texts)
 
+    # --- the round trip judged by the implementation's own `==` (the canonical texts above are
+    # computed by the harness; a Hash/Eq inconsistency of the type representation only shows here)
+    eq_cases = [f"(ty-roundtrip-eq {t})" for t in T]
+    for c, o in zip(eq_cases, common.run_cases(common.HARNESS, eq_cases)):
+        rep.evaluations += 1
+        rep.compared += 1
+        if o != "true":
+            rep.violations.append({"property": "C15", "lane": LANE, "case": c,
+                                   "what": "Type::from_str(&t.to_string()) == t is not always true by the implementation's `==`: " + o[:100]})
+    rep.count("L5.ty_roundtrip_eq", len(eq_cases))
+
     # --- the implementation's text is the model's print for the order it happened to use
     distinct_texts = {}
     for r in range(K):
